@@ -91,6 +91,14 @@ Verdict(e) ==
     [] op = "to_int" -> ToIntOK(e.form, Arg(e.a), e.r)
     [] op = "is_integer" -> IsIntegerOK(Arg(e.a), e.r)
     [] op = "from_int" -> FromIntOK(ZOf(e.v), e.r)
+    [] op = "serde_roundtrip" -> SerdeRoundTripOK(e.form, WArg(e.a), e.r, cfg)
+    [] op = "serde_none" -> SerdeNoneOK(e.r)
+    [] op = "de_json" -> DeJsonOK(e.form, e.doc, e.r, cfg)
+    [] op = "de_token" ->
+         IF e.ty \in IntTypes THEN FromIntOK(ZOf(e.v), e.r)
+         ELSE IF e.ty = "f32" THEN FromFloatOK(ZOf(e.bits).m, 32, e.r)
+         ELSE IF e.ty = "f64" THEN FromFloatOK(ZOf(e.bits).m, 64, e.r)
+         ELSE ParseOK(e.text, 10, TRUE, e.r)
     [] op = "exp" -> ExpOK(Arg(e.a), cfg.precision, e.r)
     [] op = "sqrt" -> SqrtOK(IF e.form \in {"default", "ctx", "dref_ctx"} THEN "some" ELSE IF e.form = "dref_abs" THEN "abs" ELSE "copysign",
                              Arg(e.a), PrecOf(e), ModeOf(e), e.r)
@@ -113,6 +121,8 @@ Explained(e, v) ==
     THEN <<"dev", "KF-C12-small-precision">>
   ELSE IF e.op = "div" /\ IsOneOverX(e) /\ Arg(e.b).d # <<>> /\ KF_C12_SmallPrecision("div", Arg(e.b), cfg.precision, e.r, v[2])
     THEN <<"dev", "KF-C12-small-precision">>
+  ELSE IF e.op = "de_json" /\ KF_C17_ValueThroughFloat(e.form, e.doc, e.r)
+    THEN <<"dev", "KF-C17-value-through-f64">>
   ELSE v
 
 Step ==
